@@ -1,5 +1,6 @@
 // Emission of a view through every evaluation route (shared by the value-level harnesses).
 //   V <lazy view>  E <eval row-major>  C <eval column-major> CB <raw buffer>  O <eval into supplied output>
+//   [OC <eval into a supplied COLUMN-MAJOR output with the default (row-major) resolver>]
 #ifndef VERIF_HARNESS_VIEWCOMMON_HPP
 #define VERIF_HARNESS_VIEWCOMMON_HPP
 
@@ -73,6 +74,16 @@ namespace vh
                     for (long long k = 0; k < n; k++) o.data()[k] = sentinel;
                     na::eval(v, nm::None, o, na::RowMajorResolver);
                     emit_array(out, o);
+                    // the same into a caller-supplied column-major output (the layout of a supplied output is independent of
+                    // the resolver, which only types the results the evaluator allocates itself)
+                    if constexpr (!std::is_same_v<elem_t, bool>) {
+                        out.tok("OC");
+                        na::column_major_ndarray_t<nmtools_list<oelem_t>, nmtools_list<nm_size_t>> oc;
+                        oc.resize(to_shape(sv));
+                        for (long long k = 0; k < n; k++) oc.data()[k] = sentinel;
+                        na::eval(v, nm::None, oc, na::RowMajorResolver);
+                        emit_array(out, oc);
+                    }
                 }
             }
         }
